@@ -274,6 +274,40 @@ Theorem C03_code_constants_today :
 Proof. repeat split; reflexivity. Qed.
 Print Assumptions C03_code_constants_today.
 
+(** translator tie: the shapes of the code the model writes out by hand -- the order of the
+    selectCert calls in getCertificateFromCache and which flag each sets, the wildcard loop,
+    normalizedName, DefaultCertificateSelector, selectCert, loadCertFromStorage,
+    getNameFromClientHello, the almost-full test -- as the translator reads them from the source on
+    every run (harness/cmd/consts/c03.go).  If the source is re-ordered or re-guarded this stops
+    checking (and the correspondence is searched for a failing input). *)
+Theorem C03_code_shape_today :
+  (* ["addr:matched"; "normDefault:defaulted"] *)
+  lookup_order_no_sni = [[97; 100; 100; 114; 58; 109; 97; 116; 99; 104; 101; 100]%N; [110; 111; 114; 109; 68; 101; 102; 97; 117; 108; 116; 58; 100; 101; 102; 97; 117; 108; 116; 101; 100]%N] /\
+  (* ["name:matched"; "candidate:matched"] *)
+  lookup_order_sni = [[110; 97; 109; 101; 58; 109; 97; 116; 99; 104; 101; 100]%N; [99; 97; 110; 100; 105; 100; 97; 116; 101; 58; 109; 97; 116; 99; 104; 101; 100]%N] /\
+  (* ["normFallback:defaulted"] *)
+  lookup_order_tail = [[110; 111; 114; 109; 70; 97; 108; 108; 98; 97; 99; 107; 58; 100; 101; 102; 97; 117; 108; 116; 101; 100]%N] /\
+  (* "*" *)
+  lookup_wildcard_label = [42]%N /\
+  (* "." *)
+  lookup_split_sep = [46]%N /\
+  (* "." *)
+  lookup_join_sep = [46]%N /\
+  (* true *)
+  normalized_name_is_lower_of_trim = true /\
+  (* ["len==1"; "len==0"; "best=*ast.IndexExpr"; "unsupported-continue"; "best=choice"; "valid(choice.Leaf.NotBefore,expiresAt(...))-return-choice"; "return-best"] *)
+  default_selector_shape = [[108; 101; 110; 61; 61; 49]%N; [108; 101; 110; 61; 61; 48]%N; [98; 101; 115; 116; 61; 42; 97; 115; 116; 46; 73; 110; 100; 101; 120; 69; 120; 112; 114]%N; [117; 110; 115; 117; 112; 112; 111; 114; 116; 101; 100; 45; 99; 111; 110; 116; 105; 110; 117; 101]%N; [98; 101; 115; 116; 61; 99; 104; 111; 105; 99; 101]%N; [118; 97; 108; 105; 100; 40; 99; 104; 111; 105; 99; 101; 46; 76; 101; 97; 102; 46; 78; 111; 116; 66; 101; 102; 111; 114; 101; 44; 101; 120; 112; 105; 114; 101; 115; 65; 116; 40; 46; 46; 46; 41; 41; 45; 114; 101; 116; 117; 114; 110; 45; 99; 104; 111; 105; 99; 101]%N; [114; 101; 116; 117; 114; 110; 45; 98; 101; 115; 116]%N] /\
+  (* ["choices=cfg.certCache.getAllMatchingCerts(...)"; "if len(...)==0"; "if cfg.CertSelection==nil"; "choices=cfg.certCache.getAllCerts(...)"; "if cfg.CertSelection==nil"; "call DefaultCertificateSelector"; "call cfg.CertSelection.SelectCertificate"] *)
+  select_cert_shape = [[99; 104; 111; 105; 99; 101; 115; 61; 99; 102; 103; 46; 99; 101; 114; 116; 67; 97; 99; 104; 101; 46; 103; 101; 116; 65; 108; 108; 77; 97; 116; 99; 104; 105; 110; 103; 67; 101; 114; 116; 115; 40; 46; 46; 46; 41]%N; [105; 102; 32; 108; 101; 110; 40; 46; 46; 46; 41; 61; 61; 48]%N; [105; 102; 32; 99; 102; 103; 46; 67; 101; 114; 116; 83; 101; 108; 101; 99; 116; 105; 111; 110; 61; 61; 110; 105; 108]%N; [99; 104; 111; 105; 99; 101; 115; 61; 99; 102; 103; 46; 99; 101; 114; 116; 67; 97; 99; 104; 101; 46; 103; 101; 116; 65; 108; 108; 67; 101; 114; 116; 115; 40; 46; 46; 46; 41]%N; [105; 102; 32; 99; 102; 103; 46; 67; 101; 114; 116; 83; 101; 108; 101; 99; 116; 105; 111; 110; 61; 61; 110; 105; 108]%N; [99; 97; 108; 108; 32; 68; 101; 102; 97; 117; 108; 116; 67; 101; 114; 116; 105; 102; 105; 99; 97; 116; 101; 83; 101; 108; 101; 99; 116; 111; 114]%N; [99; 97; 108; 108; 32; 99; 102; 103; 46; 67; 101; 114; 116; 83; 101; 108; 101; 99; 116; 105; 111; 110; 46; 83; 101; 108; 101; 99; 116; 67; 101; 114; 116; 105; 102; 105; 99; 97; 116; 101]%N] /\
+  (* ["load name"; "if errors.Is(err,fs.ErrNotExist)"; "labels[0]=*"; "load strings.Join(...)"] *)
+  load_from_storage_shape = [[108; 111; 97; 100; 32; 110; 97; 109; 101]%N; [105; 102; 32; 101; 114; 114; 111; 114; 115; 46; 73; 115; 40; 101; 114; 114; 44; 102; 115; 46; 69; 114; 114; 78; 111; 116; 69; 120; 105; 115; 116; 41]%N; [108; 97; 98; 101; 108; 115; 91; 48; 93; 61; 42]%N; [108; 111; 97; 100; 32; 115; 116; 114; 105; 110; 103; 115; 46; 74; 111; 105; 110; 40; 46; 46; 46; 41]%N] /\
+  (* ["idna strings.TrimSpace(hello.ServerName)"; "if err!=nil"; "return """; "if name!="""; "return name"; "if cfg.DefaultServerName!="""; "return normalizedName(cfg.DefaultServerName)"; "return localIPFromConn(hello.Conn)"] *)
+  hello_name_shape = [[105; 100; 110; 97; 32; 115; 116; 114; 105; 110; 103; 115; 46; 84; 114; 105; 109; 83; 112; 97; 99; 101; 40; 104; 101; 108; 108; 111; 46; 83; 101; 114; 118; 101; 114; 78; 97; 109; 101; 41]%N; [105; 102; 32; 101; 114; 114; 33; 61; 110; 105; 108]%N; [114; 101; 116; 117; 114; 110; 32; 34; 34]%N; [105; 102; 32; 110; 97; 109; 101; 33; 61; 34; 34]%N; [114; 101; 116; 117; 114; 110; 32; 110; 97; 109; 101]%N; [105; 102; 32; 99; 102; 103; 46; 68; 101; 102; 97; 117; 108; 116; 83; 101; 114; 118; 101; 114; 78; 97; 109; 101; 33; 61; 34; 34]%N; [114; 101; 116; 117; 114; 110; 32; 110; 111; 114; 109; 97; 108; 105; 122; 101; 100; 78; 97; 109; 101; 40; 99; 102; 103; 46; 68; 101; 102; 97; 117; 108; 116; 83; 101; 114; 118; 101; 114; 78; 97; 109; 101; 41]%N; [114; 101; 116; 117; 114; 110; 32; 108; 111; 99; 97; 108; 73; 80; 70; 114; 111; 109; 67; 111; 110; 110; 40; 104; 101; 108; 108; 111; 46; 67; 111; 110; 110; 41]%N] /\
+  (* ["cacheAlmostFull:*ast.BinaryExpr&&*ast.BinaryExpr"; "cacheAlmostFull:cacheCapacity>0"; "cacheAlmostFull:float64(...)>=*ast.BinaryExpr"; "cacheAlmostFull:cacheCapacity*.9"; "loadDynamically:*ast.BinaryExpr||cacheAlmostFull"; "loadDynamically:cfg.OnDemand!=nil"] *)
+  almost_full_shape = [[99; 97; 99; 104; 101; 65; 108; 109; 111; 115; 116; 70; 117; 108; 108; 58; 42; 97; 115; 116; 46; 66; 105; 110; 97; 114; 121; 69; 120; 112; 114; 38; 38; 42; 97; 115; 116; 46; 66; 105; 110; 97; 114; 121; 69; 120; 112; 114]%N; [99; 97; 99; 104; 101; 65; 108; 109; 111; 115; 116; 70; 117; 108; 108; 58; 99; 97; 99; 104; 101; 67; 97; 112; 97; 99; 105; 116; 121; 62; 48]%N; [99; 97; 99; 104; 101; 65; 108; 109; 111; 115; 116; 70; 117; 108; 108; 58; 102; 108; 111; 97; 116; 54; 52; 40; 46; 46; 46; 41; 62; 61; 42; 97; 115; 116; 46; 66; 105; 110; 97; 114; 121; 69; 120; 112; 114]%N; [99; 97; 99; 104; 101; 65; 108; 109; 111; 115; 116; 70; 117; 108; 108; 58; 99; 97; 99; 104; 101; 67; 97; 112; 97; 99; 105; 116; 121; 42; 46; 57]%N; [108; 111; 97; 100; 68; 121; 110; 97; 109; 105; 99; 97; 108; 108; 121; 58; 42; 97; 115; 116; 46; 66; 105; 110; 97; 114; 121; 69; 120; 112; 114; 124; 124; 99; 97; 99; 104; 101; 65; 108; 109; 111; 115; 116; 70; 117; 108; 108]%N; [108; 111; 97; 100; 68; 121; 110; 97; 109; 105; 99; 97; 108; 108; 121; 58; 99; 102; 103; 46; 79; 110; 68; 101; 109; 97; 110; 100; 33; 61; 110; 105; 108]%N].
+Proof. repeat split; reflexivity. Qed.
+Print Assumptions C03_code_shape_today.
+
 (** the run-time monitor is the boolean form of the statements above: it holds of what the model
     answers on every cache satisfying the invariant, for every policy *)
 Theorem C03_spec_ok_of_model : forall lower is_space names_of c,
